@@ -62,8 +62,9 @@ type mcfg struct {
 	N     int    `json:"n"`
 	Lim   int    `json:"lim"`
 	Nodes int    `json:"nodes"`
-	Tg    string `json:"tg,omitempty"`  // mapquota: the n activated codes were issued by the "same" target client or by n "distinct" ones
-	Key   string `json:"key,omitempty"` // model only: client id the modelled code keys its quota mutex on ("owner" | "issuer")
+	Tg    string `json:"tg,omitempty"`    // mapquota: the n activated codes were issued by the "same" target client or by n "distinct" ones
+	Slack int    `json:"slack,omitempty"` // free slots at the start (occupancy = limit - slack); 0 = 1
+	Key   string `json:"key,omitempty"`   // model only: client id the modelled code keys its quota mutex on ("owner" | "issuer")
 }
 
 type behaviour struct {
@@ -84,10 +85,20 @@ type behaviour struct {
 // (it got its tunnel) are "maplive".
 // tag = input class appended to the verdict detail
 func (b *behaviour) tag() string {
+	var t []string
 	if b.Cfg.K == "mapquota" && b.Cfg.Tg == "distinct" {
-		return "distinctTargets"
+		t = append(t, "distinctTargets")
 	}
-	return ""
+	if b.Cfg.Slack > 1 {
+		t = append(t, fmt.Sprintf("slack=%d", b.Cfg.Slack)) // occupancy limit-slack at the start, requests arriving at different times
+	}
+	for _, st := range b.Steps {
+		if st.A == "ReRelease" {
+			t = append(t, "reclose") // history with a removal of an id that is not registered
+			break
+		}
+	}
+	return strings.Join(t, ":")
 }
 func (b *behaviour) statKey() string {
 	if t := b.tag(); t != "" {
@@ -143,6 +154,7 @@ type rig interface {
 	preload(k int) error   // k occupants present before the race
 	request(p int) outcome // the real API call of racing request p
 	release(p int)         // an admitted request ends (kinds with direct release)
+	rerelease(p int)       // removal of the id of request p although it is not registered (closed before, or never seen)
 	occ() int              // occupancy read from the real object now (-1: not observable)
 	snap(p int) []string   // semantic state, without what the other racing requests own
 	probe() (want, got int, ok bool)
@@ -253,8 +265,17 @@ func (r *connRig) request(p int) outcome {
 	}
 	return outcome{Err: err.Error()}
 }
-func (r *connRig) release(p int) { r.sm.CloseConnection(pname(p)) }
-func (r *connRig) occ() int      { return len(r.sm.ListConnections()) }
+func (r *connRig) release(p int)   { r.sm.CloseConnection(pname(p)) }
+func (r *connRig) rerelease(p int) { r.sm.CloseConnection(pname(p)) }
+
+// occ: the live connections, read two ways (ListConnections, GetConnectionStats)
+func (r *connRig) occ() int {
+	n := len(r.sm.ListConnections())
+	if t := r.sm.GetConnectionStats().TotalConnections; t > n {
+		n = t
+	}
+	return n
+}
 func (r *connRig) snap(p int) []string {
 	var out []string
 	for _, c := range r.sm.ListConnections() {
@@ -349,6 +370,13 @@ func (r *regRig) release(p int) {
 		return
 	}
 	r.tr.add(fw.Event{"ev": "Release", "p": pname(p), "old": false})
+	r.tun.Remove(pname(p))
+}
+func (r *regRig) rerelease(p int) {
+	if r.ctrl != nil {
+		r.ctrl.Remove(pname(p))
+		return
+	}
 	r.tun.Remove(pname(p))
 }
 func (r *regRig) occ() int {
@@ -654,6 +682,7 @@ func (r *mapRig) release(p int) {
 		c.Close()
 	}
 }
+func (r *mapRig) rerelease(p int) {}
 func (r *mapRig) endAll() {
 	r.cmu.Lock()
 	var cs []*fconn
@@ -859,7 +888,8 @@ func (r *quotaRig) request(p int) outcome {
 	}
 	return outcome{Err: err.Error()}
 }
-func (r *quotaRig) release(p int) {}
+func (r *quotaRig) release(p int)   {}
+func (r *quotaRig) rerelease(p int) {}
 
 type codeRec = models.TunnelConnectionCode
 
@@ -972,7 +1002,14 @@ func preOf(b *behaviour) int {
 	if b.Cfg.Lim == 0 {
 		return 0
 	}
-	return b.Cfg.Lim - 1
+	sl := b.Cfg.Slack
+	if sl < 1 {
+		sl = 1
+	}
+	if sl > b.Cfg.Lim {
+		sl = b.Cfg.Lim
+	}
+	return b.Cfg.Lim - sl
 }
 
 // run is the body of one racing request: the real call, bracketed by the semantic snapshots.
@@ -1291,6 +1328,23 @@ func driveSched(env *fw.Env, b *behaviour) *fw.Trace {
 					r.release(p)
 				}
 			}
+		case st.A == "ReRelease":
+			// the model removes an id that is not registered. Only do so if it is not registered in reality either
+			// (otherwise this would be an unlogged release of a live connection).
+			if _, fin := results[p]; started[p] && (!fin || results[p].Admitted) {
+				continue
+			}
+			if inLockSection() {
+				done := make(chan struct{})
+				go func() { r.rerelease(p); close(done) }()
+				select {
+				case <-done:
+				case <-time.After(s.Watchdog):
+					return unreal("step %d: removal of %s blocked (registry lock)", i, name)
+				}
+			} else {
+				r.rerelease(p)
+			}
 		default: // a later step of a request parked at a gate
 			if !started[p] {
 				return &fw.Trace{Status: fw.DriverError, Note: fmt.Sprintf("step %d before start", i)}
@@ -1446,8 +1500,15 @@ func driveFree(env *fw.Env, b *behaviour) *fw.Trace {
 					tr.add(fw.Event{"ev": "Release", "p": pname(p), "old": false})
 				}
 				r.release(p)
+				if p%2 == 0 {
+					jitter()
+					r.rerelease(p) // torn down a second time (sweeper and read loop)
+				}
 			}
 		}(p)
+	}
+	if b.Seed%2 == 0 {
+		r.rerelease(99) // an id nobody registered
 	}
 	close(gate)
 	fin := make(chan struct{})
@@ -1489,12 +1550,19 @@ const (
 )
 
 func job(name string, c map[string]string) fw.TLCJob {
-	d := map[string]string{"KINDS": allKinds, "NS": "{2, 3, 4}", "LIMS": "{0, 1, 2}", "NODES": "{1}", "KEYS": `{"owner"}`, "VARIANTS": "{}", "FIXED": fixedAll,
+	d := map[string]string{"KINDS": allKinds, "NS": "{2, 3, 4}", "LIMS": "{0, 1, 2}", "NODES": "{1}", "KEYS": `{"owner"}`, "VARIANTS": "{}", "RR": "2", "SLACKS": "{1}", "FIXED": fixedAll,
 		"REL": "TRUE", "EMIT": "FALSE", "EMITALL": "FALSE", "VIEW": "VIEW view", "INVS": ""}
 	for k, v := range c {
 		d[k] = v
 	}
 	return fw.TLCJob{Name: name, Module: "Limits", Cfg: "Limits.cfg", Workers: 8, Consts: d}
+}
+
+func lockdropNS(env *fw.Env) string {
+	if env.Tier == "thorough" {
+		return "{3, 4}"
+	}
+	return "{3}"
 }
 
 func cloneTrace(t *fw.Trace, id int) *fw.Trace {
@@ -1538,18 +1606,21 @@ func main() {
 			jobs := []fw.TLCJob{
 				job("gen", map[string]string{"NODES": "{1, 2}", "EMIT": "TRUE"}),
 				job("legacy", map[string]string{"KINDS": legacyKinds, "FIXED": "{}", "VARIANTS": `{"ctrlsplit"}`, "EMIT": "TRUE"}),
-				job("all:n2", map[string]string{"NS": "{2}", "NODES": "{1, 2}", "EMITALL": "TRUE", "VIEW": "", "INVS": "EmitMaximal"}),
-				job("legacy-all:n2", map[string]string{"KINDS": racyKinds, "NS": "{2}", "FIXED": "{}", "EMITALL": "TRUE", "VIEW": "", "INVS": "EmitMaximal"}),
+				job("all:n2", map[string]string{"NS": "{2}", "NODES": "{1, 2}", "RR": "1", "EMITALL": "TRUE", "VIEW": "", "INVS": "EmitMaximal"}),
+				job("legacy-all:n2", map[string]string{"KINDS": racyKinds, "NS": "{2}", "FIXED": "{}", "RR": "1", "EMITALL": "TRUE", "VIEW": "", "INVS": "EmitMaximal"}),
 				// Register without the registry lock between evicting and inserting (needs a third request)
-				job("legacy-all:ctrlsplit", map[string]string{"KINDS": `{"ctrlcap"}`, "NS": "{3, 4}", "LIMS": "{1, 2}", "REL": "FALSE", "VARIANTS": `{"ctrlsplit"}`, "EMITALL": "TRUE", "VIEW": "", "INVS": "EmitMaximal"}),
+				// mutexes created on demand and dropped from the table on unlock: needs a third request that arrives after
+				// the first one returned (arrival times are part of the schedule) and one free slot more
+				job("legacy-lockdrop", map[string]string{"KINDS": quotaKinds, "NS": lockdropNS(env), "LIMS": "{2}", "SLACKS": "{2}", "VARIANTS": `{"lockdrop"}`, "EMIT": "TRUE"}),
+				job("legacy-all:ctrlsplit", map[string]string{"KINDS": `{"ctrlcap"}`, "NS": "{3, 4}", "LIMS": "{1, 2}", "REL": "FALSE", "VARIANTS": `{"ctrlsplit"}`, "RR": "1", "EMITALL": "TRUE", "VIEW": "", "INVS": "EmitMaximal"}),
 			}
 			if env.Tier == "thorough" {
 				// the model of "mutex keyed on the issuer": on the right tree the second activation blocks (unrealisable)
 				jobs = append(jobs, job("legacy-wrongkey", map[string]string{"KINDS": `{"mapquota"}`, "KEYS": `{"issuer"}`, "EMIT": "TRUE"}))
 				jobs = append(jobs,
-					job("all:n3", map[string]string{"NS": "{3}", "NODES": "{1, 2}", "EMITALL": "TRUE", "VIEW": "", "INVS": "EmitMaximal"}),
+					job("all:n3", map[string]string{"NS": "{3}", "NODES": "{1, 2}", "RR": "1", "EMITALL": "TRUE", "VIEW": "", "INVS": "EmitMaximal"}),
 					// (as-is quota behaviours block on the mutex of the repaired tree and are covered by "legacy"; here only the two caps)
-					job("legacy-all:n3", map[string]string{"KINDS": `{"conncap", "maplimit"}`, "NS": "{3}", "LIMS": "{1, 2}", "FIXED": "{}", "EMITALL": "TRUE", "VIEW": "", "INVS": "EmitMaximal"}))
+					job("legacy-all:n3", map[string]string{"KINDS": `{"conncap", "maplimit"}`, "NS": "{3}", "LIMS": "{1, 2}", "FIXED": "{}", "RR": "1", "EMITALL": "TRUE", "VIEW": "", "INVS": "EmitMaximal"}))
 			}
 			return jobs
 		},
@@ -1562,6 +1633,15 @@ func main() {
 			cls := "gen"
 			if b.Legacy {
 				cls = "legacy"
+			}
+			if src == "legacy-lockdrop" {
+				if !b.Over {
+					return nil // keep the behaviours in which the variant exceeds the quota
+				}
+				statMu.Lock()
+				genOv["lockdrop"]++
+				statMu.Unlock()
+				return []json.RawMessage{fw.MustJSON(b)}
 			}
 			statMu.Lock()
 			if src != "legacy-wrongkey" {
@@ -1585,6 +1665,12 @@ func main() {
 		MaxBehSrc: func(env *fw.Env, src string) int {
 			if strings.Contains(src, "all") && (strings.HasSuffix(src, ":n2") || strings.HasSuffix(src, ":ctrlsplit")) {
 				return 0
+			}
+			if src == "legacy-lockdrop" {
+				if env.Tier == "quick" {
+					return 0
+				}
+				return 1500
 			}
 			if env.Tier == "quick" {
 				if src == "legacy" {
@@ -1648,6 +1734,9 @@ func main() {
 			}
 			fmt.Printf("[c17]   hook point %s reached %d times\n", hookPoint, hookSeen.Load())
 			if len(genN) > 0 { // not a replay: the as-is model must still exhibit each race (vacuity guard)
+				if genOv["lockdrop"] == 0 {
+					return fmt.Errorf("the lockdrop variant of the model no longer exceeds the quota")
+				}
 				for _, k := range []string{"conncap", "ctrlcap", "maplimit", "maplive", "codequota", "mapquota", "mapquota:distinctTargets"} {
 					if genOv["legacy:"+k] == 0 {
 						return fmt.Errorf("the as-is model no longer exhibits an overshoot for %s (%d behaviours generated)", k, genN["legacy:"+k])
